@@ -263,6 +263,9 @@ pub fn replay(case: &serde_json::Value) -> i32 {
     if case["part"] == "b" {
         return super::c12b::replay(case);
     }
+    if case["part"] == "c" && super::c12c::replay(case) {
+        return 1;
+    }
     let hist: Vec<Op> = case["history"]
         .as_array()
         .unwrap()
@@ -368,10 +371,13 @@ pub fn run(tier: Tier) -> i32 {
         }
     }
     let b = super::c12b::run(&ctx, tier);
+    let (c_hists, c_cmp) = super::c12c::run(&ctx);
     let cov = json!({
+        "part_c_interactive_histories": c_hists,
+        "part_c_announcements_compared": c_cmp,
         "states": seen.len() as u64 + b.states,
         "transitions": transitions + b.transitions,
-        "traces_validated_against_impl": transitions + b.transitions,
+        "traces_validated_against_impl": transitions + b.transitions + c_hists,
         "part_a_joblist_states": seen.len(),
         "part_a_joblist_transitions": transitions,
         "part_b_shell_job_control": b.json,
